@@ -614,7 +614,9 @@ class BrownianInterval(brownian_base.BaseBrownian, _Interval):
         if ta > tb:
             raise RuntimeError(f"Query times ta={ta:.3f} and tb={tb:.3f} must respect ta <= tb.")
 
-        if ta == tb:
+        if self._round(ta) == self._round(tb):
+            # (Compared after quantisation to `tol`: an interval whose end points coincide at the resolution of the tree
+            # is a zero-length interval; searching the tree for it need not terminate when halfway_tree=True.)
             W = torch.zeros(self._size, dtype=self._dtype, device=self._device)
             H = None
             A = None
